@@ -1,6 +1,7 @@
 package main
 
 import (
+	"regexp"
 	"math/big"
 	"fmt"
 	"go/types"
@@ -24,6 +25,18 @@ func (e *Engine) uf(name string, args []*Term, res Sort) *Term {
 	return t
 }
 
+// axiom asserts a path-independent fact once per engine.
+func (e *Engine) axiom(key string, t *Term) {
+	if e.axioms == nil {
+		e.axioms = map[string]bool{}
+	}
+	if e.axioms[key] {
+		return
+	}
+	e.axioms[key] = true
+	e.S.AssertGlobal(t)
+}
+
 func (e *Engine) errorValue(tag string) Value {
 	// an opaque non-nil error
 	e.opaqueSeq++
@@ -33,13 +46,47 @@ func (e *Engine) errorValue(tag string) Value {
 func int64Term(v int64) *Term { return ConstBV(uint64(v), 64) }
 
 func registerStubs(e *Engine) {
-	e.intr["github.com/cloudflare/pint/internal/config.strictRegex"] = func(e *Engine, st *State, cc *ssa.CallCommon, a []Value) Value {
+	// regexp: compile keeps the pattern; matching is the uninterpreted predicate M(pattern, subject). A pattern that is
+	// "^" + atom + "$" is identified with the atom (that is what "fully anchored" means); an atom used as a pattern
+	// without anchors is a different predicate (Munanchored), so losing the anchors changes the verdict.
+	compile := func(e *Engine, st *State, cc *ssa.CallCommon, a []Value) Value {
 		e.opaqueSeq++
 		return OpaqueVal{Tag: "regexp", ID: e.opaqueSeq, Data: a[0]}
 	}
+	e.intr["regexp.MustCompile"] = compile
 	match := func(e *Engine, st *State, cc *ssa.CallCommon, a []Value) Value {
-		re := a[0].(OpaqueVal)
-		return e.uf("M", []*Term{e.strID(re.Data.(StringVal)), e.strID(a[1].(StringVal))}, BoolSort)
+		re, ok := a[0].(OpaqueVal)
+		if !ok {
+			if p, isPtr := a[0].(PtrVal); isPtr && p.Obj == 0 {
+				e.fail(st, "panic", "nil pointer dereference ((*regexp.Regexp).MatchString on nil)")
+				return nil
+			}
+			unsupported("MatchString on %T", a[0])
+		}
+		pat := re.Data.(StringVal)
+		subj := a[1].(StringVal)
+		if pc, ok1 := pat.Concrete(); ok1 {
+			if sc, ok2 := subj.Concrete(); ok2 {
+				r, err := regexp.Compile(pc)
+				if err != nil {
+					e.fail(st, "panic", "regexp: Compile("+pc+"): "+err.Error())
+					return nil
+				}
+				return ConstBool(r.MatchString(sc))
+			}
+		}
+		fn := "M"
+		if pat.Atom != nil {
+			switch {
+			case pat.Pre == "^" && pat.Suf == "$":
+			case pat.Pre == "" && pat.Suf == "":
+				fn = "Munanchored"
+			default:
+				fn = "M_" + sanitize(pat.Pre+"_"+pat.Suf)
+			}
+			pat.Pre, pat.Suf = "", ""
+		}
+		return e.uf(fn, []*Term{e.strID(pat), e.strID(subj)}, BoolSort)
 	}
 	e.intr["(*regexp.Regexp).MatchString"] = match
 	e.intr["github.com/prometheus/common/model.ParseDuration"] = func(e *Engine, st *State, cc *ssa.CallCommon, a []Value) Value {
@@ -54,6 +101,12 @@ func registerStubs(e *Engine) {
 		id := e.strID(sv)
 		ok := e.uf("PD_ok", []*Term{id}, BoolSort)
 		val := e.uf("PD_val", []*Term{id}, BV(64))
+		// the uninterpreted parser agrees with the real one on every concrete member of the atom's domain
+		for _, c := range sv.Cands {
+			cid := ConstInt(int64(e.intern(c)))
+			d, err := model.ParseDuration(c)
+			e.axiom("PD|"+c, And(Eq(e.uf("PD_ok", []*Term{cid}, BoolSort), ConstBool(err == nil)), Eq(e.uf("PD_val", []*Term{cid}, BV(64)), int64Term(int64(d)))))
+		}
 		return ForkVal{
 			Conds: []*Term{ok, Not(ok)},
 			Vals: []Value{
